@@ -20,7 +20,12 @@ def O(idx, sub, r, w, kind, data, abort=()):
     return dict(idx=idx, sub=sub, r=r, w=w, kind=kind, data=list(data), abort=list(abort))
 
 
-TDICT = [O(0x2000, 0, True, True, "int", [1, 2, 3, 4]), O(0x2001, 0, True, False, "int", [9, 8, 7, 6]), O(0x2002, 0, False, True, "int", [0, 0, 0, 0]),
+TDICT = [# the SDO client's COB-ID entries, typed CO_TSDO_ID as in the repository's own test application (the type covers 1200h..12FFh:
+         # "00h..7fh server; 80h..ffh client").  Only values with bit 31 set are written (b31: switching a channel off is always accepted;
+         # valid -> valid would be refused by the type); the servers must not notice
+         dict(O(0x1280, 1, True, True, "int", [0x00, 0x06, 0, 0]), htype=7, b31=True), dict(O(0x1280, 2, True, True, "int", [0x80, 0x05, 0, 0]), htype=7, b31=True),
+         O(0x1280, 3, True, True, "int", [9]),
+         O(0x2000, 0, True, True, "int", [1, 2, 3, 4]), O(0x2001, 0, True, False, "int", [9, 8, 7, 6]), O(0x2002, 0, False, True, "int", [0, 0, 0, 0]),
          O(0x2003, 0, True, True, "int", [5, 6]), O(0x2004, 0, True, True, "int", [17]),
          O(0x2010, 1, True, True, "dom", dom(9)), O(0x2010, 2, True, True, "dom", dom(30)), O(0x2010, 3, True, True, "dom", dom(300)),
          O(0x2010, 4, True, True, "dom", dom(1000)), O(0x2010, 5, True, True, "dom", dom(5)), O(0x2010, 6, True, True, "dom", dom(14)),
@@ -162,7 +167,7 @@ class Client:
             L = size + r.randint(1, 9)
         c = 0xC0 | (2 if r.random() < 0.8 else 0) | (4 if r.random() < 0.3 else 0)
         self.rx([c] + m + (le(L, 4) if c & 2 else [0, 0, 0, 0]))
-        data = self.payload(L)
+        data = self.value_for(o, L)
         nseg = (L + 6) // 7
         done = 0                                        # segments delivered and acknowledged
         stop = r.randint(0, nseg) if r.random() < self.w["abandon"] else -1
